@@ -55,6 +55,7 @@ type recCase struct {
 	ExpP    struct {
 		Clean   int  `json:"clean"`
 		RealErr bool `json:"realerr"`
+		After   int  `json:"after"` // records Layer P lets later Reads deliver: 0
 	} `json:"expP"`
 	ExpM struct {
 		Deliver int    `json:"deliver"`
@@ -357,15 +358,19 @@ func classify(err error) string {
 }
 
 type runObs struct {
-	Delivered int    `json:"delivered"`       // bytes handed to the application
-	Reads     []int  `json:"reads,omitempty"` // sizes of the successful reads
-	PrefixOK  bool   `json:"prefix_ok"`       // delivered bytes are a prefix of the sent stream
-	Err       string `json:"err"`             // final error text
-	Class     string `json:"class"`           // its class
-	Records   int    `json:"records"`         // application records captured
-	Version   string `json:"version,omitempty"`
-	Suite     string `json:"suite,omitempty"`
-	Panic     string `json:"panic,omitempty"` // the connection under test panicked
+	Delivered  int    `json:"delivered"`       // bytes handed to the application
+	Reads      []int  `json:"reads,omitempty"` // sizes of the successful reads
+	PrefixOK   bool   `json:"prefix_ok"`       // delivered bytes are a prefix of the sent stream
+	Err        string `json:"err"`             // final error text
+	Class      string `json:"class"`           // its class
+	Records    int    `json:"records"`         // application records captured
+	Version    string `json:"version,omitempty"`
+	Suite      string `json:"suite,omitempty"`
+	Panic      string `json:"panic,omitempty"`       // the connection under test panicked
+	After      int    `json:"after"`                 // bytes handed out by Read calls made after the first error
+	AfterHex   string `json:"after_hex,omitempty"`   // the beginning of them
+	LaterNil   int    `json:"later_nil"`             // later Read calls that returned a nil error
+	WriteAfter string `json:"write_after,omitempty"` // class of the error of a Write after the read error
 }
 
 // runWire performs one behaviour.  wire == nil means the identity (all captured records forwarded).
@@ -472,8 +477,32 @@ func runWire(cb combo, n int, wire []wireRec, rnd *mrand.Rand, seed int64) (obs 
 	obs.PrefixOK = len(got) <= len(sent) && bytes.Equal(got, sent[:len(got)])
 	obs.Err = rerr.Error()
 	obs.Class = classify(rerr)
+	// the application asks again (Record!ReadAgain): the error must stay and nothing may come out
+	if p := vh.Guard(func() {
+		for i := 0; i < postReads; i++ {
+			k, e := receiver.Read(buf)
+			obs.After += k
+			if k > 0 && len(obs.AfterHex) < 64 {
+				obs.AfterHex += fmt.Sprintf("%x", buf[:min(k, 32-len(obs.AfterHex)/2)])
+			}
+			if e == nil {
+				obs.LaterNil++
+			}
+		}
+		// ... and tries to answer (diagnostic only: after a fatal alert the sending half is closed too)
+		_, e := receiver.Write([]byte("verif: write after the read error"))
+		obs.WriteAfter = classify(e)
+	}); p != "" {
+		if cb.peer == "go" && cb.dir == "s2c" {
+			return obs, nil, nil, fmt.Errorf("crypto/tls panicked after its error: %s", p)
+		}
+		obs.Panic = "Conn.Read/Write after the error: " + p
+	}
 	return obs, sent, recs, nil
 }
+
+// further Read calls after the first error (the spec's MaxPost)
+var postReads = 3
 
 // buildWire turns the abstract wire of the case into bytes.
 func buildWire(cb combo, recs []rawRecord, wire []wireRec, hsFin rawRecord, rnd *mrand.Rand) ([]byte, error) {
@@ -723,13 +752,18 @@ func recordOne(c recCase, seed int64) {
 				why = "delivered-past-tamper"
 			case obs.Class == "none":
 				why = "no-error"
+			case obs.After > c.ExpP.After:
+				why = "data-after-error"
+			case obs.LaterNil > 0:
+				why = "error-not-sticky"
 			case padAuth && c.ExpP.RealErr && obs.Class == "eof":
 				why = "tamper-reported-as-eof"
 			}
 			if why != "" {
 				res.Sig = why + "/" + c.Combo + "/" + shape
 				res.Detail = fmt.Sprintf("combo %s wire %s: delivered %d bytes (clean prefix = %d records = %d bytes, record sizes %v), prefix_ok=%v, error %q",
-					c.Combo, wireText(c.Wire), obs.Delivered, c.ExpP.Clean, cum(c.ExpP.Clean), sizes, obs.PrefixOK, obs.Err)
+					c.Combo, wireText(c.Wire), obs.Delivered, c.ExpP.Clean, cum(c.ExpP.Clean), sizes, obs.PrefixOK, obs.Err) +
+					fmt.Sprintf("; %d further Reads handed out %d bytes (%s...) and %d of them returned a nil error", postReads, obs.After, obs.AfterHex, obs.LaterNil)
 			} else {
 				okClass := false
 				for _, k := range mClasses[c.ExpM.Err] {
